@@ -27,12 +27,12 @@ theorem enc_dec32 (a b c d : UInt8) : encU32le (dec32 a b c d) = [a, b, c, d] :=
   simp only [encU32le, dec32, b8, List.cons.injEq, and_true]
   refine ⟨?_, ?_, ?_, ?_⟩ <;> apply UInt8.toBitVec_inj.mp <;> simp only [UInt8.toBitVec_ofBitVec] <;>
     generalize a.toBitVec = x <;> generalize b.toBitVec = y <;> generalize c.toBitVec = z <;> generalize d.toBitVec = w <;>
-    bv_decide
+    bv_decide (config := { timeout := 300 })
 
 theorem enc_dec16 (a b : UInt8) : encU16le (dec16 a b) = [a, b] := by
   simp only [encU16le, dec16, b8, List.cons.injEq, and_true]
   refine ⟨?_, ?_⟩ <;> apply UInt8.toBitVec_inj.mp <;> simp only [UInt8.toBitVec_ofBitVec] <;>
-    generalize a.toBitVec = x <;> generalize b.toBitVec = y <;> bv_decide
+    generalize a.toBitVec = x <;> generalize b.toBitVec = y <;> bv_decide (config := { timeout := 300 })
 
 /-! ### the encoder is a run of packers -/
 
